@@ -21,7 +21,47 @@ fn show(p: tpkt::Payload) -> String {
     }
 }
 
+/// the same deframer over the TLS arm of `Stream`: a real TLS connection whose server writes
+/// the byte stream cut into TLS records at the given offsets (a frame or a header may span
+/// several records), then closes
+fn run_tls(toks: &[&str], em: &mut Emitter) {
+    use std::io::Write;
+    let line = toks.join(" ");
+    let k: usize = toks[1].parse().unwrap();
+    let data = unhex(toks[2]);
+    let mut cuts = parse_nat_list(toks[3]);
+    cuts.retain(|c| *c > 0 && *c < data.len()); cuts.sort(); cuts.dedup(); cuts.push(data.len());
+    let (a, b) = std::os::unix::net::UnixStream::pair().expect("socketpair");
+    a.set_read_timeout(Some(std::time::Duration::from_secs(3))).ok();
+    let d2 = data.clone();
+    let th = std::thread::spawn(move || {
+        let (ident, _) = crate::nlasrv::identity(1);
+        let acc = native_tls::TlsAcceptor::new(ident).unwrap();
+        if let Ok(mut tls) = acc.accept(b) {
+            let mut prev = 0;
+            for c in cuts { if c > prev { let _ = tls.write_all(&d2[prev..c]); let _ = tls.flush(); std::thread::sleep(std::time::Duration::from_millis(2)); } prev = c; }
+            std::thread::sleep(std::time::Duration::from_millis(20));
+            let _ = tls.shutdown();
+        }
+    });
+    let res = std::panic::catch_unwind(std::panic::AssertUnwindSafe(move || {
+        let mut items: Vec<String> = vec![];
+        let link = match Link::new(Stream::Raw(a)).start_ssl(false) { Ok(l) => l, Err(_) => return (items, false, true) };
+        let mut t = tpkt::Client::new(link);
+        let mut ok = true;
+        for _ in 0..k { match t.read() { Ok(p) => items.push(show(p)), Err(_) => { ok = false; break; } } }
+        (items, ok, false)
+    }));
+    let _ = th.join();
+    let obs = match res {
+        Ok((mut items, ok, setup_failed)) => { let nt = !items.is_empty(); items.push(if ok { "ok".into() } else { "E".to_string() }); let o = Obs::new(items.join(";")).nt(nt); if setup_failed { o.viol("TLS setup failed") } else { o } }
+        Err(_) => Obs::new("P".into()).viol("panic").tag("panic"),
+    };
+    em.case(&line, move || obs);
+}
+
 pub fn run_case(toks: &[&str], em: &mut Emitter) {
+    if toks[0] == "tpkt_tls" { return run_tls(toks, em); }
     let line = toks.join(" ");
     let op = toks[0].to_string();
     let k: usize = toks[1].parse().unwrap();
@@ -135,6 +175,21 @@ pub fn generate(thorough: bool, seed: u64, part: (usize, usize), em: &mut Emitte
         let op = if x224 { "x224_read" } else { "tpkt_read" };
         let sched = if data.len() > 5000 { if r.chance(1,2) { vec![] } else { (0..64).map(|_| r.below(1600) as usize).collect() } } else { gen_sched(&mut r, data.len()) };
         emit(em, op, k, &data, &sched);
+    }
+    // 2b. the same streams over the TLS arm, cut into TLS records anywhere (inside headers and bodies)
+    if part.0 == 0 {
+        let n_tls = if thorough { 1500 } else { 120 };
+        for i in 0..n_tls {
+            let nframes = r.range(1, 4) as usize;
+            let mut data = vec![];
+            for _ in 0..nframes { let mut f = gen_frame(&mut r, false, false); if f.len() > 600 { f = enc_slow(&r.bytes(20), 0); } data.extend(f); }
+            let ncuts = match i % 4 { 0 => 0, 1 => 1, _ => r.range(1, 6) as usize };
+            let cuts: Vec<usize> = (0..ncuts).map(|_| r.range(1, data.len() as u64) as usize).collect();
+            emit(em, "tpkt_tls", nframes, &data, &cuts);
+        }
+        // a frame larger than one TLS record (16 KiB)
+        let big = enc_slow(&(0..20000usize).map(|i| (i * 13) as u8).collect::<Vec<u8>>(), 0);
+        emit(em, "tpkt_tls", 1, &big, &[]);
     }
     // 3. every truncation point of small valid streams
     let n_trunc = if thorough { 400 } else { 40 };
